@@ -96,7 +96,7 @@ Check == /\ epc = "check"
 \* wait_for(lock, min(target - wall_now, slice), pred): atomically releases the mutex and starts waiting
 WaitSlice == /\ epc = "waitslice"
              /\ mutex' = "free" /\ epc' = "waiting" /\ woken' = FALSE
-             /\ deadline' = wall + Min(target - wallNow, Slice)
+             /\ deadline' = Min(MaxWall, wall + Min(target - wallNow, Slice))   \* (clamped: the model's clock is bounded)
              \* level A: the loop goes to sleep only when nothing has been signalled
              /\ bad' = IF bad = "" /\ WakeRequested THEN "C17.notification_lost_while_waiting" ELSE bad
              /\ UNCHANGED <<wall, evalTime, pend, pushPending, stopReq, consec, wallNow, target, nreq, cycles, script, afterStop, cut>>
